@@ -29,12 +29,29 @@ func effective(g string, f *MFile) string {
 // prior marks files already complete before the command. Returns expectations and
 // whether the command must fail.
 func modelApply(files []*MFile, prior map[int]bool, g string, n int) (map[int]fileExpect, bool) {
-	exp := map[int]fileExpect{}
-	var pend []*MFile
+	before := map[int]fileExpect{}
 	for _, f := range files {
 		if prior[f.Idx] {
-			exp[f.Idx] = fileExpect{state: "complete"}
-		} else {
+			before[f.Idx] = fileExpect{state: "complete"}
+		}
+	}
+	return modelApplyFrom(files, before, g, n)
+}
+
+// modelApplyFrom is modelApply from an arbitrary earlier outcome (files may be partially applied).
+func modelApplyFrom(files []*MFile, beforeExp map[int]fileExpect, g string, n int) (map[int]fileExpect, bool) {
+	exp := map[int]fileExpect{}
+	var pend []*MFile
+	start := map[int]int{}
+	for _, f := range files {
+		switch b := beforeExp[f.Idx]; b.state {
+		case "complete":
+			exp[f.Idx] = b
+		case "partial":
+			exp[f.Idx] = b
+			start[f.Idx] = b.applied
+			pend = append(pend, f)
+		default:
 			exp[f.Idx] = fileExpect{state: "absent"}
 			pend = append(pend, f)
 		}
@@ -44,7 +61,7 @@ func modelApply(files []*MFile, prior map[int]bool, g string, n int) (map[int]fi
 	}
 	bad := func(f *MFile) int {
 		for k, s := range f.Stmts {
-			if s.Kind == KBad {
+			if s.Kind == KBad && k >= start[f.Idx] {
 				return k
 			}
 		}
@@ -182,6 +199,14 @@ func C13Apply(r *simkit.Run) {
 			}
 		}
 		badFile.Stmts[badIdx] = MkStmt(fmt.Sprintf("f%d", badFile.Idx), badIdx, KBad)
+		// Sometimes a second statement fails too, further down the same file or in a later file.
+		if t.Chance("second-bad-statement", 1, 3) {
+			f2 := files[badFile.Idx-1+t.Draw("second-bad-file", len(files)-badFile.Idx+1)]
+			k2 := t.Draw("second-bad-stmt", len(f2.Stmts))
+			if (f2 != badFile || k2 > badIdx) && !(f2.Idx == 1 && k2 == 0) {
+				f2.Stmts[k2] = MkStmt(fmt.Sprintf("f%d", f2.Idx), k2, KBad)
+			}
+		}
 		r.Tag("fault-injecting")
 	} else {
 		r.Tag("fault-free")
@@ -278,10 +303,20 @@ func C13Apply(r *simkit.Run) {
 		return
 	}
 	// Fix the file (replace the failing statement, drop conflicting directives), re-hash, re-run:
-	// the final state must be the one a fault-free run of the fixed directory produces.
-	if badFile != nil {
-		badFile.Stmts[badIdx] = MkStmt(fmt.Sprintf("f%d", badFile.Idx), badIdx, KInsert)
+	// the final state must be the one a fault-free run of the fixed directory produces. A second
+	// failing statement further down makes the re-run fail again; it is fixed in turn.
+	fixFirstBad := func() bool {
+		for _, f := range files {
+			for k, st := range f.Stmts {
+				if st.Kind == KBad {
+					f.Stmts[k] = MkStmt(fmt.Sprintf("f%d", f.Idx), k, KInsert)
+					return true
+				}
+			}
+		}
+		return false
 	}
+	fixFirstBad()
 	if g == "all" {
 		for _, f := range files {
 			f.TxMode = ""
@@ -289,6 +324,40 @@ func C13Apply(r *simkit.Run) {
 	}
 	w.WriteDir(files)
 	r.Logf("fix + rehash")
+	for remaining := true; remaining; {
+		remaining = false
+		for _, f := range files {
+			for _, st := range f.Stmts {
+				if st.Kind == KBad {
+					remaining = true
+				}
+			}
+		}
+		if !remaining {
+			break
+		}
+		exp2, fail2 := modelApplyFrom(files, exp, g, 0)
+		res = apply(0)
+		d = w.Observe()
+		r.Logf("rerun with another failing statement -> %s effects=%s revs=[%s]", res.Class(), EffectVector(d, files), d.RevDigest())
+		r.Sample("re-run hits the second failing statement -> %s (%s); effects %s revisions [%s]", res.Class(), firstN(res.ErrLine(), 100), EffectVector(d, files), d.RevDigest())
+		r.Probe("second-failure-after-fix")
+		if res.Panicked {
+			r.Fail(propC13, "panic", "panic/rerun", "migrate apply panicked on re-run: %s", res.ErrLine())
+			return
+		}
+		if f, why := compareApply(w, d, files, exp2, true); f != nil {
+			r.Fail(propC13, "apply-atomicity", "apply-atomicity-second-failure/"+sigOf(f), "after the second failure (`--tx-mode %s`): %s; effects %s revisions [%s]; CLI said: %s", g, why, EffectVector(d, files), d.RevDigest(), res.ErrLine())
+			return
+		}
+		if fail2 != (res.Exit != 0) {
+			r.Fail(propC13, "exit-status", "exit-status/"+g, "re-run: model says fail=%v, exit=%d (%s)", fail2, res.Exit, res.ErrLine())
+			return
+		}
+		exp = exp2
+		fixFirstBad()
+		w.WriteDir(files)
+	}
 	res = apply(0)
 	d = w.Observe()
 	r.Logf("rerun -> %s effects=%s revs=[%s]", res.Class(), EffectVector(d, files), d.RevDigest())
